@@ -40,6 +40,22 @@ fn tag_plus_q_pattern() -> Vec<u8> {
     out
 }
 
+/// samples of `len` bytes that a scalar sampler maps to the close tag: the tag's own little-endian bytes
+/// (zero-extended) and tag + q. Works for samplers that take 64 bytes (wide reduction) and for ones that
+/// take 32 or 48 and reduce.
+fn tag_patterns(len: usize) -> Vec<Vec<u8>> {
+    if len < 32 {
+        return vec![];
+    }
+    let mut a = tag_pattern();
+    let mut b = tag_plus_q_pattern();
+    a.resize(len.max(64), 0);
+    b.resize(len.max(64), 0);
+    a.truncate(len);
+    b.truncate(len);
+    vec![a, b]
+}
+
 fn seed_of(rng: &mut impl RngCore) -> [u8; 32] {
     let mut s = [0u8; 32];
     rng.fill_bytes(&mut s);
@@ -67,11 +83,22 @@ fn nonce_generation(c: &mut Ctx) {
                 return c.inconclusive("C18: the crafted tag+q pattern does not sample the close tag");
             }
         }
+        // how many bytes does the generator ask for? (64 at the pinned commit)
+        let len0 = {
+            let mut dry = ScriptRng::new([2u8; 32]);
+            let _ = zk::internal::test_new_nonce(&mut dry);
+            dry.log.first().map(|d| d.len).unwrap_or(0)
+        };
+        let pats = tag_patterns(len0);
+        if pats.is_empty() {
+            return c.inconclusive("C18: the nonce generator's first draw is shorter than a scalar");
+        }
+        c.note("nonce_generator_draw_length", json!(len0));
         for run in 0..c.tier.pick(40, 400) {
             let k = 1 + run % 4; // tag sampled k times in a row
             let mut r = ScriptRng::new(seed_of(&mut rng));
             for i in 0..k {
-                r.inject(i, if (run / 4 + i) % 2 == 0 { tag_pattern() } else { tag_plus_q_pattern() });
+                r.inject(i, pats[(run / 4 + i) % 2].clone());
             }
             c.eval();
             c.distinct(&format!("test_new_nonce/{}in-a-row/{}", k, run));
@@ -118,7 +145,8 @@ fn requested_new(c: &mut Ctx, m: &'static Merchant) {
             Ok(x) => x,
             Err(e) => return c.inconclusive(&e),
         };
-        let draws64 = dry.draws_of_len(64);
+        // every draw long enough to become a scalar (all are 64 bytes at the pinned commit)
+        let draws64: Vec<usize> = dry.log.iter().filter(|d| d.len >= 32).map(|d| d.index).collect();
         let base_draws = dry.draws();
         c.note("Requested::new_scalar_draws", json!(draws64.len()));
         let _ = s0;
@@ -126,8 +154,9 @@ fn requested_new(c: &mut Ctx, m: &'static Merchant) {
         for &d in &draws64 {
             for k in 1..=c.tier.pick(1usize, 3) {
                 let mut r = ScriptRng::new(seed);
+                let pats = tag_patterns(dry.log[d].len);
                 for i in 0..k {
-                    r.inject(d + i, tag_pattern());
+                    r.inject(d + i, pats[(d + i) % 2].clone());
                 }
                 c.eval();
                 c.distinct(&format!("Requested::new/draw{}/x{}", d, k));
@@ -200,7 +229,8 @@ fn ready_start(c: &mut Ctx, m: &'static Merchant) {
         if let Err(e) = start(&mut dry) {
             return c.inconclusive(&e);
         }
-        let draws64 = dry.draws_of_len(64);
+        let draws64: Vec<usize> = dry.log.iter().filter(|d| d.len >= 32).map(|d| d.index).collect();
+        let lens: Vec<usize> = dry.log.iter().map(|d| d.len).collect();
         let base_draws = dry.draws();
         c.note("Ready::start_scalar_draws", json!(draws64.len()));
         // quick: the first draws (where the state is created) and a spread of the others
@@ -213,7 +243,7 @@ fn ready_start(c: &mut Ctx, m: &'static Merchant) {
             let name = format!("nonce/Ready::start/state{}/draw{}", si, d);
             c.case(&name, |c| {
                 let mut r = ScriptRng::new(seed);
-                r.inject(d, tag_pattern());
+                r.inject(d, tag_patterns(lens[d])[d % 2].clone());
                 c.eval();
                 c.distinct(&name);
                 match guard(|| start(&mut r)) {
@@ -345,6 +375,22 @@ fn separation(c: &mut Ctx, m: &'static Merchant, r: &zk::customer::Ready, rng: &
     }
 }
 
+/// r + q as a 256-bit little-endian integer (None when it does not fit)
+fn plus_q(r: &[u8; 32]) -> Option<[u8; 32]> {
+    let mut out = [0u8; 32];
+    let mut carry = 0u16;
+    for i in 0..32 {
+        let x = r[i] as u16 + crate::wire::Q_LE[i] as u16 + carry;
+        out[i] = x as u8;
+        carry = x >> 8;
+    }
+    if carry != 0 {
+        None
+    } else {
+        Some(out)
+    }
+}
+
 fn channel_id(c: &mut Ctx, m: &'static Merchant, m2: &'static Merchant) {
     c.case("channel-id", |c| {
         let mut rng = c.rng("channel-id");
@@ -366,6 +412,17 @@ fn channel_id(c: &mut Ctx, m: &'static Merchant, m2: &'static Merchant) {
             let mut ci = vec![0u8; len(&mut rng)];
             rng.fill_bytes(&mut mi);
             rng.fill_bytes(&mut ci);
+            // forced shapes in the first rounds: one side empty, text-like infos
+            if k == 1 {
+                mi.clear();
+            }
+            if k == 2 {
+                ci.clear();
+            }
+            if k == 3 {
+                mi = b"tz1-merchant-account".to_vec();
+                ci = b"tz1-customer-account".to_vec();
+            }
             let mk = |mr: &[u8; 32], cr: &[u8; 32], pk: &zk::PublicKey, mi: &[u8], ci: &[u8]| -> Option<[u8; 32]> {
                 let a: MerchantRandomness = dec(mr).ok()?;
                 let b: CustomerRandomness = dec(cr).ok()?;
@@ -403,6 +460,11 @@ fn channel_id(c: &mut Ctx, m: &'static Merchant, m2: &'static Merchant) {
                 ("customer-account-info-byte", mk(&mr, &cr, pk, &mi, &ci2)),
                 ("merchant-account-info-last-byte", mk(&mr, &cr, pk, &mi4, &ci)),
                 ("customer-account-info-last-byte", mk(&mr, &cr, pk, &mi, &ci4)),
+                ("merchant-account-info-newline-appended", mk(&mr, &cr, pk, &[&mi[..], b"\n"].concat(), &ci)),
+                ("customer-account-info-space-prepended", mk(&mr, &cr, pk, &mi, &[b" ", &ci[..]].concat())),
+                ("merchant-account-info-invalid-utf8-byte", mk(&mr, &cr, pk, &[&mi[..], &[0xffu8][..]].concat(), &[&ci[..]].concat()).and_then(|a| mk(&mr, &cr, pk, &[&mi[..], &[0xfeu8][..]].concat(), &ci).map(|b| if a == b { base } else { a }))),
+                ("merchant-randomness-plus-q", plus_q(&mr).and_then(|x| mk(&x, &cr, pk, &mi, &ci))),
+                ("customer-randomness-plus-q", plus_q(&cr).and_then(|x| mk(&mr, &x, pk, &mi, &ci))),
                 ("merchant-account-info-longer", mk(&mr, &cr, pk, &mi3, &ci)),
                 ("customer-account-info-longer", mk(&mr, &cr, pk, &mi, &ci3)),
             ];
